@@ -68,6 +68,7 @@ type crashSpec struct {
 	Snap     bool // copy synced files (power-loss images)
 	Reopen   bool // the directory holds an earlier (crashed) session
 	Managed  bool // managed mode: every commit is a managed write batch of 3 entries with per-entry versions
+	WaitFlush    bool // after the last commit wait (up to 20 s) until at least one flush has been recorded
 	CompactEvery int // every k-th commit is followed by an explicit compaction (production doCompact) of L0, every 2k-th also of L1
 }
 
@@ -113,6 +114,7 @@ type crashLogger struct {
 	seq  int
 	hits int
 	occ  int
+	nFlushDone atomic.Int32
 	spec *crashSpec
 	voff map[uint64]uint64 // vlog fid -> write offset after the last request
 	db   atomic.Pointer[badger.DB]
@@ -231,6 +233,8 @@ func (l *crashLogger) point(name string, args ...uint64) {
 		if l.spec.Sync {
 			l.snap(seq, l.curWal())
 		}
+	case "persist.flush.manifest":
+		l.nFlushDone.Add(1)
 	case "persist.flush.table":
 		l.snap(seq, fmt.Sprintf("%06d.sst", args[0]))
 		l.tableLine(args[0])
@@ -385,6 +389,9 @@ func crashChild(c *Ctx) error {
 	}
 	// let background flushes / compactions settle a little, then die without Close
 	time.Sleep(30 * time.Millisecond)
+	for w := 0; s.WaitFlush && l.nFlushDone.Load() == 0 && w < 2000; w++ {
+		time.Sleep(10 * time.Millisecond)
+	}
 	l.mu.Lock()
 	l.line("END")
 	os.Exit(0)
@@ -991,9 +998,9 @@ func crashBuildTrace(s *crashSpec, evs []crashEvent, upto int) *crashTrace {
 	lastFlushTable := uint64(0)
 	opened := false
 	emit := func(e string) { t.evs = append(t.evs, e) }
-	// a creation hook fires AFTER the file was created; a directory fsync logged just before it
-	// whose listing already shows the new name happened after the creation: the SyncDir event
-	// is moved behind the creation events
+	// a creation hook fires AFTER the file was created (and, with the F9 repair, after the
+	// directory fsync that follows the creation): files that a directory fsync's listing shows
+	// are created in the trace right before that SyncDir, and the later hook does not repeat it
 	cellByKV := map[string]cellT{} // "key@version" -> cell
 	var pendingCompacts, installed []crashCompact
 	pendingFlush := false
@@ -1012,14 +1019,74 @@ func crashBuildTrace(s *crashSpec, evs []crashEvent, upto int) *crashTrace {
 		}
 		return nil, false
 	}
-	lastSyncIdx, lastSyncLS := -1, ""
-	moveSync := func(name string) bool {
-		if lastSyncIdx >= 0 && lastSyncIdx < len(t.evs) && t.evs[lastSyncIdx] == "PE SyncDir" && crashHas(lastSyncLS, name) {
-			t.evs = append(t.evs[:lastSyncIdx], t.evs[lastSyncIdx+1:]...)
-			lastSyncIdx = -1
-			return true
+	createdSst := map[uint64]bool{}
+	everSst := createdSst // a table id is never reused: a listed table already created is left alone
+	ensureWal := func(fid uint64) {
+		if t.wals[fid] || fid <= walcur {
+			return
 		}
-		return false
+		if t.sealedW < walcur {
+			emit("PSeal")
+			t.sealedW = walcur
+		}
+		walcur = fid
+		t.wals[fid] = true
+		emit(fmt.Sprintf("PE (Create (Wal %d))", fid))
+		emit(fmt.Sprintf("PE (Init (Wal %d))", fid))
+	}
+	ensureVlog := func(fid uint64) {
+		if fid <= vlogcur {
+			return
+		}
+		if s.Sync {
+			emit(fmt.Sprintf("PE (SyncFile (Vlog %d))", vlogcur))
+		}
+		vlogcur = fid
+		emit(fmt.Sprintf("PE (Create (Vlog %d))", fid))
+		emit(fmt.Sprintf("PE (Init (Vlog %d))", fid))
+	}
+	ensureSst := func(id uint64) {
+		if createdSst[id] {
+			return
+		}
+		createdSst[id] = true
+		emit(fmt.Sprintf("PE (Create (Sst %d))", id))
+		emit(fmt.Sprintf("PE (Init (Sst %d))", id))
+	}
+	createListed := func(ls string) {
+		var mems, vlogs, ssts []uint64
+		for _, f := range strings.Split(ls, ",") {
+			j := strings.LastIndex(f, ":")
+			if j < 0 {
+				continue
+			}
+			n := f[:j]
+			switch {
+			case strings.HasSuffix(n, ".mem"):
+				x, _ := strconv.ParseUint(strings.TrimSuffix(n, ".mem"), 10, 64)
+				mems = append(mems, x)
+			case strings.HasSuffix(n, ".vlog"):
+				x, _ := strconv.ParseUint(strings.TrimSuffix(n, ".vlog"), 10, 64)
+				vlogs = append(vlogs, x)
+			case strings.HasSuffix(n, ".sst"):
+				x, _ := strconv.ParseUint(strings.TrimSuffix(n, ".sst"), 10, 64)
+				ssts = append(ssts, x)
+			}
+		}
+		sort.Slice(mems, func(a, b int) bool { return mems[a] < mems[b] })
+		sort.Slice(vlogs, func(a, b int) bool { return vlogs[a] < vlogs[b] })
+		sort.Slice(ssts, func(a, b int) bool { return ssts[a] < ssts[b] })
+		for _, x := range mems {
+			ensureWal(x)
+		}
+		for _, x := range vlogs {
+			ensureVlog(x)
+		}
+		for _, x := range ssts {
+			if !everSst[x] {
+				ensureSst(x)
+			}
+		}
 	}
 	for i, ev := range evs {
 		if upto > 0 && ev.Seq > upto {
@@ -1044,10 +1111,8 @@ func crashBuildTrace(s *crashSpec, evs []crashEvent, upto int) *crashTrace {
 				fail("unparsable COMPACT line")
 				return t
 			}
-			moved := len(cp.news) > 0 && moveSync(fmt.Sprintf("%06d.sst", cp.news[0]))
 			for _, id := range cp.news {
-				emit(fmt.Sprintf("PE (Create (Sst %d))", id))
-				emit(fmt.Sprintf("PE (Init (Sst %d))", id))
+				ensureSst(id)
 				kvs, found := tableAt(i, id)
 				if !found {
 					fail(fmt.Sprintf("no TABLE line for compaction output %d", id))
@@ -1062,9 +1127,6 @@ func crashBuildTrace(s *crashSpec, evs []crashEvent, upto int) *crashTrace {
 					emit(fmt.Sprintf("PE (Append (Sst %d) (IT (%s, %s)))", id, c.ent, c.ptr))
 				}
 				emit(fmt.Sprintf("PE (SyncFile (Sst %d))", id))
-			}
-			if moved {
-				emit("PE SyncDir")
 			}
 			pendingCompacts = append(pendingCompacts, cp)
 			t.kinds["compaction"]++
@@ -1107,16 +1169,7 @@ func crashBuildTrace(s *crashSpec, evs []crashEvent, upto int) *crashTrace {
 		case "persist.vlog.synced":
 			emit(fmt.Sprintf("PE (SyncFile (Vlog %d))", ev.Args[0]))
 		case "persist.vlog.created":
-			if s.Sync {
-				emit(fmt.Sprintf("PE (SyncFile (Vlog %d))", vlogcur))
-			}
-			vlogcur = ev.Args[0]
-			moved := moveSync(fmt.Sprintf("%06d.vlog", vlogcur))
-			emit(fmt.Sprintf("PE (Create (Vlog %d))", vlogcur))
-			emit(fmt.Sprintf("PE (Init (Vlog %d))", vlogcur))
-			if moved {
-				emit("PE SyncDir")
-			}
+			ensureVlog(ev.Args[0])
 		case "persist.wal.put":
 			r := nReqDone + 1
 			cs, ok := cells[r]
@@ -1148,18 +1201,7 @@ func crashBuildTrace(s *crashSpec, evs []crashEvent, upto int) *crashTrace {
 		case "persist.batch.ack":
 			emit("PAck")
 		case "persist.mem.rotated":
-			if t.sealedW < walcur {
-				emit("PSeal")
-				t.sealedW = walcur
-			}
-			walcur = ev.Args[0]
-			t.wals[walcur] = true
-			moved := moveSync(fmt.Sprintf("%05d.mem", walcur))
-			emit(fmt.Sprintf("PE (Create (Wal %d))", walcur))
-			emit(fmt.Sprintf("PE (Init (Wal %d))", walcur))
-			if moved {
-				emit("PE SyncDir")
-			}
+			ensureWal(ev.Args[0])
 		case "persist.flush.begin":
 			// flushes are serial and in WAL order: the k-th flush takes the k-th WAL; when that is
 			// the current WAL the writer has already handed it over (ensureRoomForWrite pushes to
@@ -1172,9 +1214,7 @@ func crashBuildTrace(s *crashSpec, evs []crashEvent, upto int) *crashTrace {
 		case "persist.flush.table":
 			id := ev.Args[0]
 			lastFlushTable = id
-			moved := moveSync(fmt.Sprintf("%06d.sst", id))
-			emit(fmt.Sprintf("PE (Create (Sst %d))", id))
-			emit(fmt.Sprintf("PE (Init (Sst %d))", id))
+			ensureSst(id)
 			if kvs, found := tableAt(i, id); found {
 				// what the table file really holds (VerifTableKeys at the hook)
 				for _, kv := range kvs {
@@ -1194,9 +1234,6 @@ func crashBuildTrace(s *crashSpec, evs []crashEvent, upto int) *crashTrace {
 			}
 			pendingFlush = true
 			emit(fmt.Sprintf("PE (SyncFile (Sst %d))", id))
-			if moved {
-				emit("PE SyncDir")
-			}
 		case "persist.manifest.before-write":
 			// addChanges is serialised: the change set is the flusher's (one create: 14 bytes with
 			// the default compression) or a compactor's (at least two changes)
@@ -1257,12 +1294,10 @@ func crashBuildTrace(s *crashSpec, evs []crashEvent, upto int) *crashTrace {
 				}
 			}
 		case "persist.syncdir.done":
-			emit("PE SyncDir")
-			lastSyncIdx = len(t.evs) - 1
-			lastSyncLS = ""
 			if i+1 < len(evs) && evs[i+1].Kind == "LS" {
-				lastSyncLS = evs[i+1].Rest
+				createListed(evs[i+1].Rest)
 			}
+			emit("PE SyncDir")
 		default:
 			fail("hook not covered by the translation: " + ev.Name)
 			return t
@@ -1306,11 +1341,15 @@ func (e *crashEnv) currentFlags() (fixDir, fixZero bool, note string) {
 	// acknowledged value-log value)?
 	dir2 := e.newDir("flagd")
 	s2 := &crashSpec{Dir: dir2, EventLog: filepath.Join(e.scratch, "flag2.log"), SnapDir: e.scratch, NCommits: 90, First: 1,
-		MemSize: 8 << 10, Sync: true, BigEvery: 2, BigSize: 100}
+		MemSize: 8 << 10, Sync: true, BigEvery: 2, BigSize: 100, WaitFlush: true}
 	os.Remove(s2.EventLog)
 	e.runChild(s2, 0)
 	evs := crashReadLog(s2.EventLog)
-	fixDir = crashDirsyncRepaired(evs)
+	var enough bool
+	fixDir, enough = crashDirsyncRepaired(evs)
+	if !enough {
+		note += "F9 witness replay inconclusive (no rotation/flush/vlog value in the probe session); assuming the pinned behaviour. "
+	}
 	os.RemoveAll(dir)
 	os.RemoveAll(dir2)
 	return
@@ -2088,7 +2127,7 @@ func (e *crashEnv) powerJob(k int, wl crashWorkload, s *crashSpec, evs []crashEv
 // true iff, in this log, every new WAL, flushed table and value-log file has its name covered
 // by a directory fsync before the first event that relies on it (the F9 witnesses no longer
 // reproduce); needs at least one rotation and one flush in the log
-func crashDirsyncRepaired(evs []crashEvent) bool {
+func crashDirsyncRepaired(evs []crashEvent) (repaired, conclusive bool) {
 	durable := ""
 	needWal, needSst, needVlog := "", "", ""
 	sawRot, sawFlush, sawVlog := false, false, false
@@ -2129,7 +2168,7 @@ func crashDirsyncRepaired(evs []crashEvent) bool {
 			}
 		}
 	}
-	return ok && sawRot && sawFlush && sawVlog
+	return ok && sawRot && sawFlush && sawVlog, sawRot && sawFlush && sawVlog
 }
 
 
